@@ -31,7 +31,7 @@ type Case struct {
 
 func menu(w *chain.World) []chain.Action {
 	return []chain.Action{
-		chain.V1Pay(true, 2), chain.V1Chain(), chain.V1SF(true), chain.V1Form(1, 2, 100), chain.V1Revise("pay"), chain.V1Proof(false),
+		chain.V1Pay(true, 2), chain.V1Chain(), chain.V1SF(true), chain.V1Form(1, 2, 100), chain.V1Revise("pay"), chain.V1Proof(false), chain.V1ProofFee(),
 		chain.V2Pay(chain.AddrV2, true, 2), chain.V2Pay(chain.AddrV1, false, 1), chain.V2Pay(chain.AddrThresh, false, 1), chain.V2Chain(chain.AddrV2), chain.V2Chain2(chain.AddrACS), chain.V2SF(true), chain.V2SFChain(), chain.V2Form(1, 2, 100), chain.V2Form(0, 1, 10),
 		chain.V2Revise("pay"), chain.V2Renew("partial"), chain.V2Proof(), chain.V2Expire(), chain.V2Attest(),
 		// transactions whose lists have different lengths / several elements and kinds per transaction
@@ -485,7 +485,7 @@ func resealBlock(cs consensus.State, b *types.Block) {
 
 // Run is the validation half of C10.
 func Run(c *vf.Ctx) {
-	c.Set("validation_rule", "at every accepted block of a small union-alphabet DFS on every network family: every single structural mutation of the block and of its supplement (reflection walk: every field +-1 / byte flips / list drop, dup, swap, empty; integers and currencies set to 0, 1, 2^63, 2^64-1, 2^128-1, the unassigned-leaf sentinel; proofs resized to 0/63/64/65 hashes; out-of-range indices appended to every index list; pointers and interfaces set to nil; wrong / empty resolution types; policies nil, nested 31/32/33/200 deep, 255/256/1024/1025 wide; for every v1 signature the covered fields replaced by {one index list: [k]} for each of the ten lists and every k up to one past the transaction's longest list) is fed - as is and re-sealed (payout, commitment, nonce recomputed) - to ValidateBlock, ValidateOrphan, ValidateHeader, ValidateTransaction, ValidateV2Transaction and ValidateTransactionElements under recover; accepted mutants are applied and reverted; for a subset of block shapes (quick: 14 per network, thorough: all) additionally every PAIR of value-setting mutations on different leaves (at most 120 per block, evenly thinned)")
+	c.Set("validation_rule", "at every accepted block of a small union-alphabet DFS on every network family: every single structural mutation of the block and of its supplement (reflection walk: every field +-1 / byte flips / list drop, dup, swap, empty; integers and currencies set to 0, 1, 2^63, 2^64-1, 2^128-1, the unassigned-leaf sentinel; proofs resized to 0/63/64/65 hashes; out-of-range indices appended to every index list; pointers and interfaces set to nil; wrong / empty resolution types; policies nil, nested 31/32/33/200 deep, 255/256/1024/1025 wide; for every v1 signature the covered fields replaced by {one index list: [k]} for each of the ten lists and every k up to one past the transaction's longest list) is fed - as is and re-sealed (payout, commitment, nonce recomputed) - to ValidateBlock, ValidateOrphan, ValidateHeader, ValidateTransaction, ValidateV2Transaction and ValidateTransactionElements under recover; accepted mutants are applied and reverted; for a subset of block shapes (quick: 14 per network, thorough: all) additionally every PAIR of value-setting mutations on different leaves (at most 120 per block, evenly thinned); plus histories that contain a contract with an extreme file size (2^64-1, 2^64-63.., 2^63, ...; v1 and v2), followed at every height by storage proofs of several lengths, revisions and expirations for it")
 	nets := []string{"mixed", "v1-eras", "v2-only", "v2-eph5"}
 	for _, n := range nets {
 		if c.Expired() {
@@ -581,11 +581,16 @@ func Run(c *vf.Ctx) {
 		x := chain.NewExplorer(c, m, "C10")
 		x.Run()
 	}
-	c.RequireFeature("blocks_mutated", "mutant_rejected", "mutant_accepted")
+	hugeFiles(c, nil)
+	c.RequireFeature("blocks_mutated", "mutant_rejected", "mutant_accepted", "huge_file_contracts_formed", "huge_file_probes")
 }
 
 // Replay re-executes one recorded mutation.
 func Replay(c *vf.Ctx, cs Case) {
+	if cs.Target == "huge-file" {
+		hugeFiles(c, &cs)
+		return
+	}
 	tc := chain.TraceCase{Model: "union", Network: cs.Network, Seed: cs.Seed, Trace: cs.Trace}
 	raw := mustJSON(tc)
 	w := chain.ReplayTraceWorld(c, raw, func(string) func(w *chain.World) []chain.Action { return menu }, "C10", chain.Options{})
